@@ -169,7 +169,7 @@ def run_property(pid, tier="quick", seed=0, only=None, verbose=False, do_bounded
                         knowns.append(line)
                     continue
                 nrep += 1
-                if nrep > 12:
+                if nrep > 60:
                     continue
                 path = write_replay(pid, nrep, {"property": pid, "kind": "bounded", "signature": f["signature"],
                                                 "case": f.get("case"), "message": f.get("message")})
